@@ -20,6 +20,8 @@ TOKENS = [
     ['str', 'a'], ['str', ''], ['str', 'a, b'],
     ['obj', 'wl_x', 5], ['new', 'wl_x', 6], ['new', None, 6], ['nil'],
     ['fd', 9], ['array', 8],
+    # interface names that begin like the keywords of other argument kinds (nil / new id, array, fd)
+    ['obj', 'nested_surface', 7], ['obj', 'aura_shell', 14], ['obj', 'fd_holder', 21], ['new', 'array_list', 22],
 ]
 KIND_REPS = [['int', 3], ['fixed', 640], ['str', 'k l'], ['obj', 'zz_y', 12], ['new', 'zz_y', 13], ['new', None, 14],
              ['nil'], ['fd', 4], ['array', 0]]
@@ -34,7 +36,9 @@ NEIGHBOURS = [['int', 1], ['str', 'n'], ['nil'], ['obj', 'wl_x', 5], ['new', Non
 
 # dialect x tags: (dialect, queue, conn)
 COMBOS = [('old', None, None), ('oldc', None, None), ('mid', None, None), ('cur', None, None),
-          ('cur', 'q', None), ('cur', None, '1'), ('cur', 'Default Queue', '12'), ('cur', 'q', '3')]
+          ('cur', 'q', None), ('cur', None, '1'), ('cur', 'Default Queue', '12'), ('cur', 'q', '3'),
+          # queue names are free text
+          ('cur', 'frame callbacks (vsync)', None), ('cur', 'egl(0x55d0) [2]', '3')]
 COMBOS_SMALL = [('old', None, None), ('oldc', None, None), ('mid', None, None), ('cur', 'Default Queue', '12')]
 
 TIMES = [0, 1, 999, 1000, 492063955, 3261636706, 4294967295999]
